@@ -457,6 +457,16 @@ func (t *tester) testV2FC(cs consensus.State, e types.V2FileContractElement, oth
 		{"revision-number", func(x *types.V2FileContractElement) { x.V2FileContract.RevisionNumber++ }},
 		{"renter-signature", func(x *types.V2FileContractElement) { x.V2FileContract.RenterSignature[0] ^= 1 }},
 		{"host-signature", func(x *types.V2FileContractElement) { x.V2FileContract.HostSignature[63] ^= 1 }},
+		// a contract parent can never be an in-block ("ephemeral") element: the sentinel leaf index is no excuse
+		{"leaf-index-unassigned", func(x *types.V2FileContractElement) { x.StateElement.LeafIndex = types.UnassignedLeafIndex }},
+		{"leaf-index-unassigned+renter-output-value", func(x *types.V2FileContractElement) {
+			x.StateElement.LeafIndex = types.UnassignedLeafIndex
+			x.V2FileContract.RenterOutput.Value = x.V2FileContract.RenterOutput.Value.Add(types.Siacoins(1000))
+		}},
+		{"leaf-index-unassigned+never-created", func(x *types.V2FileContractElement) {
+			x.StateElement = types.StateElement{LeafIndex: types.UnassignedLeafIndex}
+			x.ID = types.FileContractID{0xAA}
+		}},
 	}
 	for _, sm := range t.seMuts(e.StateElement, other, cs.Elements.NumLeaves) {
 		sm := sm
@@ -488,6 +498,12 @@ func (t *tester) testCI(cs consensus.State, host types.V2FileContractElement, e 
 		{"id", func(x *types.ChainIndexElement) { x.ID[3] ^= 1 }},
 		{"chain-index-height", func(x *types.ChainIndexElement) { x.ChainIndex.Height++ }},
 		{"chain-index-id", func(x *types.ChainIndexElement) { x.ChainIndex.ID[30] ^= 1 }},
+		{"leaf-index-unassigned", func(x *types.ChainIndexElement) { x.StateElement.LeafIndex = types.UnassignedLeafIndex }},
+		{"leaf-index-unassigned+never-created", func(x *types.ChainIndexElement) {
+			x.StateElement = types.StateElement{LeafIndex: types.UnassignedLeafIndex}
+			x.ID = types.BlockID{0xAB}
+			x.ChainIndex.ID = x.ID
+		}},
 	}
 	for _, sm := range t.seMuts(e.StateElement, other, cs.Elements.NumLeaves) {
 		sm := sm
